@@ -380,14 +380,20 @@ def extra_cases(tier, rng):
       add("forms", base(relu=relu, bits=int(rng.integers(3, 7)), mv=1.0 if ints else _pick(rng, mvs_le1)),
           forms={"max_value": form}, alt=bool(rng.integers(2)))
     add("forms", base(mv=_pick(rng, mvs_gt1 + [1.0])), forms={"max_value": form}, alt=bool(rng.integers(2)))
-  # -- spellings of bits (numpy float32 bits overflow 2**max_exp in max(): kept below 2^128)
+  # -- spellings of bits (numpy float32 bits used to overflow 2**max_exp in max() from 2^128 on and were
+  #    kept below; min()/max() take 2**int(exponent) since fix 05a0f48, so every form gets 2..8)
   for form in BITS_FORMS:
     for relu in (False, True):
-      hi = 8 if form != "npFloat32" else (7 if not relu else 6)
-      add("forms", base(relu=relu, bits=int(rng.integers(2, hi + 1))), forms={"bits": form})
-  for form in NPINT_FORMS:   # the recorded numpy-integer cases: min() raises, 2**max_exp wraps
+      add("forms", base(relu=relu, bits=int(rng.integers(2, 9))), forms={"bits": form})
+  add("forms", base(relu=True, bits=8, mv=0.5), forms={"bits": "npFloat32"})   # max_exp = 255
+  # numpy-integer bits (former finding C03-numpy-int-bits, repaired: min()/max() take 2**int(exponent)):
+  # the smallest code of the plain relu variant (2**np.int64(-8) used to raise) and exponents at and
+  # beyond the width of the numpy type (2**31 / 2**63 / 2**127 used to wrap: max() = 1.0)
+  for form in NPINT_FORMS:
     add("forms", base(relu=True, bits=4, mv=None, slope=0.0), forms={"bits": form})
     add("forms", base(relu=False, bits=8, mv=None), forms={"bits": form})
+    add("forms", base(relu=True, bits=8, mv=None, slope=_pick(rng, [0.0, 0.5])), forms={"bits": form})
+    add("forms", base(relu=False, bits=7 if form == "npInt32" else 8, mv=None, quad=False), forms={"bits": form})
   # -- spellings of negative_slope (slopes > 1 included)
   for form in SLOPE_FORMS:
     sl = _pick(rng, [0.0, 1.0, 2.0, 4.0]) if form in INT_FORMS else _pick(rng, [0.0, 0.5, 0.25, 2.0, 2.0 ** -6])
